@@ -857,7 +857,7 @@ theorem readExactAt_slice {a p sz : Nat} (han : a < nChunks d.length) (hp : 0 < 
   unfold readExactAt toBytes slice
   rw [Nat.add_sub_cancel_left]
   by_cases h0 : sz = 0
-  · rw [if_pos h0, List.drop_eq_nil_of_le (by omega)]; rfl
+  · rw [if_pos h0, List.drop_eq_nil_of_le (by omega)]; simp
   · rw [if_neg h0, if_pos (by omega)]
     congr 1
     rw [List.take_eq_take_iff, List.length_drop]
@@ -960,6 +960,7 @@ theorem parent_step {k M : Nat} (hbM : bs ≤ M) (hM : M < 64)
       ⟨_, _, _, _, hload, rfl, by rw [← hsplit]; exact bne_self_eq_false _, rfl, rfl⟩
   rw [C05.loop_cons, hstep]
 
+omit [BEq H] [LawfulBEq H] in
 theorem pushLR_eq (lq rq : Ranges) (l r : H) (stk : List H) :
     C05.pushLR (!lq.isEmpty) (!rq.isEmpty) l r stk =
       (if lq.isEmpty then [] else [l]) ++ ((if rq.isEmpty then [] else [r]) ++ stk) := by
@@ -1078,9 +1079,9 @@ theorem loop_sub {filled R : Nat} (g : Geo d.length bs filled) (hroot : nodeOf 0
     rw [isEmpty_eq_false hne]
     simp only [Bool.false_eq_true, if_false, List.cons_append, List.nil_append, nodeLeaf,
       Nat.zero_add]
-    rw [bytesI_succ_skip (a := startOf k bs) rfl han (by omega),
-      Nat.min_eq_right (by omega : nChunks d.length ≤ endOf k bs),
-      ← Nat.min_eq_right (by omega : nChunks d.length ≤ startOf k bs + 2 ^ bs)]
+    have emin : min (endOf k bs) (nChunks d.length)
+        = min (startOf k bs + 2 ^ bs) (nChunks d.length) := by omega
+    rw [bytesI_succ_skip (a := startOf k bs) rfl han (by omega), emin]
     refine leaf_step hI fl sel _ ha han hr' ?_ rest stk out
     unfold toBytes at hh ⊢
     have : (startOf k bs + 2 ^ bs) * 1024 = startOf k bs * 1024 + 2 ^ bs * 1024 := Nat.add_mul _ _ _
@@ -1092,7 +1093,8 @@ theorem loop_sub {filled R : Nat} (g : Geo d.length bs filled) (hroot : nodeOf 0
     have hsm := startOf_lt_midOf k bs
     have hm : midOf k bs = startOf k bs + 2 ^ bs := midOf_eq_start_add k bs
     have he : endOf k bs = midOf k bs + 2 ^ bs := endOf_eq_mid_add k bs
-    have hLb := g.level_le hlt
+    have hLb := OutboardL.level_bound (k := k) (L := 0) hI.hs
+      ((Offsets.exists_iff d.length bs k 0).1 (by rw [Nat.zero_add]; exact hmN))
     have hrl := repr_left hr hsm (by omega) hmN
     have hrr := repr_right hr (Nat.le_of_lt hsm) (by omega)
     rw [hm] at hrl; rw [he] at hrr
@@ -1106,24 +1108,19 @@ theorem loop_sub {filled R : Nat} (g : Geo d.length bs filled) (hroot : nodeOf 0
       (by rw [hm]; exact right_start rfl) hmN hrr (by unfold toBytes; rw [← he]) rest stk out
     rw [← hm] at hL
     rw [← he] at hR
-    have hbeq : (nodeOf k 0 == nodeOf 0 R) = (nodeOf k 0 == nodeOf 0 R) := rfl
     have := node_run hI fl sel (k := k) (M := bs) (Nat.le_refl _) (by omega) hmN
-      (nodeOf k 0 == nodeOf 0 R) hne hr _ _ (lq bs 0 k rs) (rq bs 0 k rs) hL hR rest stk out
-    simp only [nodeParent, leftLeaf, rightLeaf, Nat.zero_add]
+      (nodeOf k 0 == nodeOf 0 R) hne hr _ _ (Ranges.splitInner rs (startOf k bs) (midOf k bs)).1
+      (Ranges.splitInner rs (startOf k bs) (midOf k bs)).2 hL hR rest stk out
+    simp only [nodeParent, leftLeaf, rightLeaf, lq, rq, Nat.zero_add]
     exact this
   · -- an existing inner node
     intro L k rs hne hlt _ ihl ihr hr hL hk han rest stk out
     have hmN := g.mid_lt_nChunks hlt
     have hsm := startOf_lt_midOf k (L + 1 + bs)
     have hme := midOf_lt_endOf k (L + 1 + bs)
-    have hLb := g.level_le hlt
-    have hLb2 : L + 1 + bs < 64 := by
-      have := Bits.level_lt_of_succ_lt (k := k) (L := L + 1 + bs) (by
-        have h1 := g.real_lt hlt
-        have h2 := Offsets.nodeOf_succ_odd k (L + bs)
-        rw [show L + bs + 1 = L + 1 + bs by omega] at h2
-        omega)
-      exact this
+    have hLb := OutboardL.level_bound (k := k) (L := L + 1) hI.hs
+      ((Offsets.exists_iff d.length bs k (L + 1)).1 hmN)
+    have hLb2 : L + 1 + bs < 64 := by omega
     have hrl := repr_left hr hsm (by omega) hmN
     have hrr := repr_right hr (Nat.le_of_lt hsm) (by omega)
     rw [isEmpty_eq_false hne]
@@ -1132,8 +1129,8 @@ theorem loop_sub {filled R : Nat} (g : Geo d.length bs filled) (hroot : nodeOf 0
       (by omega) (by rw [child_ls]; exact han) rest stk out
     have hRr := fun rest stk out => ihr (by rw [child_rs, child_re]; exact hrr) (by omega)
       (by omega) (by rw [child_rs]; exact hmN) rest stk out
-    simp only [child_ls, child_le, child_rs, child_re, nodeOf_beq_false (by omega : L < R)]
-      at hLl hRr
+    simp only [child_ls, child_le, child_rs, child_re, nodeOf_beq_false (by omega : L < R),
+      Nat.min_eq_left (Nat.le_of_lt hmN)] at hLl hRr
     have e : L + 1 + bs + 1 = (L + 1 + bs) + 1 := rfl
     have e2 : L + bs + 1 = L + 1 + bs := by omega
     rw [e2] at hLl hRr
